@@ -50,8 +50,9 @@ def h_sink(cfg):
 
 
 class DropTap:
-    def __init__(self, env, name, k, delay, out):
+    def __init__(self, env, name, k, delay, out, budget=None):
         self.env, self.name, self.k, self.delay, self.out = env, name, k, delay, out
+        self.budget = budget           # shared cap on the total number of drops
         self.count = 0
         self.sent = []
         self.dropped = 0
@@ -60,9 +61,13 @@ class DropTap:
         i = self.count
         self.count += 1
         self.sent.append((pkt.packet_id, self.env.now, getattr(pkt, 'ack', None)))
-        drop = bool(sym_bool('%s%d' % (self.name, i))) if i < self.k else False
+        drop = False
+        if i < self.k and (self.budget is None or self.budget['left'] > 0):
+            drop = bool(sym_bool('%s%d' % (self.name, i)))
         if drop:
             self.dropped += 1
+            if self.budget is not None:
+                self.budget['left'] -= 1
             return
         # each transmission travels on its own (the sender re-sends the same object)
         snap = (pkt.time, pkt.size, pkt.packet_id, pkt.flow_id, getattr(pkt, 'ack', 0))
@@ -86,8 +91,9 @@ def h_reliable(cfg):
     cc = TCPReno() if cfg['cc'] == 'reno' else TCPCubic()
     snd = TCPPacketGenerator(env, flow, cc, element_id='s', rtt_estimate=cfg['rtt0'])
     sink = TCPSink(env)
-    data = DropTap(env, 'dd', kd, cfg['d1'], sink)
-    acks = DropTap(env, 'da', ka, cfg['d2'], snd)
+    budget = {'left': cfg['max_drops']} if cfg.get('max_drops') else None
+    data = DropTap(env, 'dd', kd, cfg['d1'], sink, budget)
+    acks = DropTap(env, 'da', ka, cfg['d2'], snd, budget)
     snd.out = data
     sink.out = acks
     try:
@@ -130,6 +136,13 @@ def jobs(tier, seed):
                     js.append({'harness': 'reliable', 'weight': 2 ** (kd + ka),
                                'cfg': {'cc': cc, 'm': m, 'kd': kd, 'ka': ka, 'd1': d1, 'd2': d2, 'rtt0': 1.0,
                                        'horizon': 100000}})
+    # longer flows, at most two drops anywhere among the first transmissions (all pairs data/data, data/ACK, ACK/ACK)
+    for cc in ('reno', 'cubic'):
+        for m in (5, 6) if tier == 'quick' else (5, 6, 8):
+            for (d1, d2) in ((0.25, 0.25),) if tier == 'quick' else ((0.25, 0.25), (1.5, 1.5)):
+                js.append({'harness': 'reliable', 'weight': 400,
+                           'cfg': {'cc': cc, 'm': m, 'kd': m + 3, 'ka': m + 3, 'max_drops': 2, 'd1': d1, 'd2': d2, 'rtt0': 1.0,
+                                   'horizon': 100000}})
     return js
 
 
